@@ -175,7 +175,7 @@ def main(argv):
         json.dump({'data': data, 'kf_active': sorted(kf_active)}, f)
     jobs = []
     for ob in obs:
-        n = ob.shards.get(tier, 1) if ob.engine == 'E1' else 1
+        n = ob.shards.get(tier, 1)
         budget = float(os.environ.get('VERIF_BUDGET_S', ob.budget_s.get(tier, 90)))
         for k in range(n):
             out = os.path.join(workdir, f'{ob.id}.{k}.json')
